@@ -1,9 +1,25 @@
-(* C04 -- the regenerated site tables equal the tables the model was written against *)
-From Coq Require Import List String.
-From TV Require Import Gen.C04_Sites Model.C04_SitesExpected.
+(* C04 -- the regenerated site tables equal the tables the model was written against, and the regenerated
+   decision tables of the sentinel code equal the model's functions on the whole finite domain *)
+From Coq Require Import ZArith List String Bool.
+From TV Require Import Base.Prelude Model.C04_Tamper Gen.C04_Sites Model.C04_SitesExpected.
+Open Scope Z_scope.
 
 Lemma sites_as_expected :
   hash_sites = expected_hash_sites /\ guard_sites = expected_guard_sites /\
   server_hello_sites = expected_server_hello_sites /\ guard_positions = expected_guard_positions /\
   client_hello_sites = expected_client_hello_sites /\ client_suite_sites = expected_client_suite_sites.
+Proof. vm_compute. repeat split; reflexivity. Qed.
+
+(* one row per (client maxVersion, negotiated version, tail class) in 768..772 x 768..772 x {1,2,0} *)
+Definition check_row_ok (r : Z * Z * Z * bool * Z) : bool :=
+  let '(cmax, v, t, ab, al) := r in
+  Bool.eqb (sentinel_hit cmax v t) ab && (if ab then al =? ALERT_ILLEGAL_PARAMETER else true).
+(* one row per (function, server maxVersion, selected version <= min(max, TLS 1.2)): tail class of the random built *)
+Definition write_row_ok (r : string * Z * Z * Z) : bool :=
+  let '(_, smax, v, t) := r in sentinel_for smax v 0 =? t.
+
+Lemma sentinel_tables_ok :
+  forallb check_row_ok sentinel_check_table = true /\ List.length sentinel_check_table = 75%nat /\
+  forallb write_row_ok sentinel_write_table = true /\ List.length sentinel_write_table = 28%nat /\
+  sentinel_write_functions = expected_sentinel_write_functions.
 Proof. vm_compute. repeat split; reflexivity. Qed.
